@@ -15,6 +15,8 @@ TRANSLATE = {'modules': [
                    '_energy_transfer_t0', 'energy_transfer_direct_from_tof', 'energy_transfer_indirect_from_tof',
                    'energy_from_wavelength', 'wavelength_from_energy', '_wavelength_Q_conversions',
                    'Q_from_wavelength', 'wavelength_from_Q', 'dspacing_from_wavelength', 'dspacing_from_energy']},
+    {'py': 'src/scippneutron/tof/chopper_cascade.py', 'coq': 'GenCascade',
+     'functions': ['wavelength_to_inverse_velocity', 'propagate_times']},
 ]}
 RUN_FILES = [('C01/Tie.v', 'TieC01.v'), ('C05/Tie.v', 'TieC05.v'), 'Tie.v', 'Properties.v', 'Corr.v']
 TRUSTED = [
@@ -38,8 +40,9 @@ M = 'scippneutron.conversion.tof:'
 PHYS = {   # operand -> (kind, physical SI value)
     'tof': ('time', 0.004), 'Ltotal': ('length', 12.0), 'L1': ('length', 9.0), 'L2': ('length', 3.0),
     'wavelength': ('length', 2e-10), 'energy': ('energy', 20 * 1.602176634e-22), 'Q': ('invlength', 3e10),
-    'two_theta': ('angle', 1.0), 'incident_energy': ('energy', 20 * 1.602176634e-22),
+    'two_theta': ('angle', 1.5707963267948966), 'incident_energy': ('energy', 20 * 1.602176634e-22),
     'final_energy': ('energy', 20 * 1.602176634e-22),
+    'time': ('time', 0.004), 'distance': ('length', 12.0),
 }
 UNITS = {
     'time': [('s', 1.0), ('ms', 1e-3), ('us', 1e-6), ('ns', 1e-9)],
@@ -60,7 +63,10 @@ KERNELS = {
     'dspacing_from_energy': ['energy', 'two_theta'],
     'energy_transfer_direct_from_tof': ['tof', 'L1', 'L2', 'incident_energy'],
     'energy_transfer_indirect_from_tof': ['tof', 'L1', 'L2', 'final_energy'],
+    'wavelength_to_inverse_velocity': ['wavelength'],
+    'propagate_times': ['time', 'wavelength', 'distance'],
 }
+CASCADE = {'wavelength_to_inverse_velocity', 'propagate_times'}
 DTYPES = ['float64', 'float32', 'int64', 'int32']
 
 
@@ -104,7 +110,9 @@ def correspondence(ctx):
             allc = rng.sample(allc, min(len(allc), 70))
         for ops in allc:
             groups.append({'id': len(groups), 'kname': kname, 'operands': ops,
-                           'expr': {'call': M + kname, 'args': {nm: '$' + nm for nm in KERNELS[kname]}}})
+                           'expr': ({'call': 'scippneutron.tof.chopper_cascade:' + kname, 'pos': ['$' + nm for nm in KERNELS[kname]]}
+                                    if kname in CASCADE else
+                                    {'call': M + kname, 'args': {nm: '$' + nm for nm in KERNELS[kname]}})})
     # twin of every group that has a float32 operand: the same call with those operands in float64
     # (used only to classify a single-precision failure as a float32 RANGE problem, see below)
     for g in list(groups):
@@ -119,7 +127,8 @@ def correspondence(ctx):
     for g, r in zip(groups, res['groups']):
         if 'build_error' in r:
             continue
-        any32 = any(o['dtype'] == 'float32' for o in g['operands'].values()) or (r.get('result') or {}).get('dtype') == 'float32'
+        # accuracy promised by the RESULT's precision class
+        any32 = (r.get('result') or {}).get('dtype') == 'float32'
         et = g['kname'].startswith('energy_transfer')
         tol = ('(1 # 100000000000)' if et else '(1 # 1000000000000)') if not any32 else ('(2 # 100000)' if et else '(2 # 1000000)')
         for t, d in kcorr.element_cases(g['kname'], KERNELS[g['kname']], g, r, tol):
@@ -138,7 +147,9 @@ def correspondence(ctx):
                 phys = float(Fraction(int(rr['values'][0][0]), int(rr['values'][0][1])) *
                              Fraction(int(rr['unit']['mult'][0]), int(rr['unit']['mult'][1])))
                 key = (g['kname'], tuple(o['dtype'] for o in g['operands'].values()))
-                by_phys.setdefault(key, []).append((phys, d, any32, et))
+                # float32 OPERANDS store slightly different physical inputs in different units
+                in32 = any32 or any(o['dtype'] == 'float32' for o in g['operands'].values())
+                by_phys.setdefault(key, []).append((phys, d, in32, et))
     for key, lst in by_phys.items():
         ref = lst[0][0]
         for phys, d, any32, et in lst[1:]:
@@ -167,7 +178,10 @@ def correspondence(ctx):
                           f'{d["kernel"]}: single-precision operands in these units give a wrong result ({why}); '
                           f'the same call in double precision is right: {d}', {'case': d, 'reason': why})
             continue
-        ctx.violation(f'{d["kernel"]}:{why.split(":")[0]}', f'{d["kernel"]}: implementation differs from the model ({why}) on {d}', {'case': d, 'reason': why})
+        key = f'{d["kernel"]}:{why.split(":")[0]}'
+        if why == 'value-single-precision-level':
+            pass   # one class per kernel: a float64 result that is only single-precision accurate
+        ctx.violation(key, f'{d["kernel"]}: implementation differs from the model ({why}) on {d}', {'case': d, 'reason': why})
     ctx.coverage.update({
         'evaluations': len(terms),
         'float64_twins': sum(1 for d in descs if d['twin_of'] is not None),
@@ -183,8 +197,52 @@ def correspondence(ctx):
     })
 
 
+DATA_OPERANDS = {
+    'wavelength_from_tof': ['tof'], 'dspacing_from_tof': ['tof'], 'energy_from_tof': ['tof'],
+    'energy_from_wavelength': ['wavelength'], 'wavelength_from_energy': ['energy'],
+    'Q_from_wavelength': ['wavelength'], 'wavelength_from_Q': ['Q'],
+    'dspacing_from_wavelength': ['wavelength'], 'dspacing_from_energy': ['energy'],
+    'energy_transfer_direct_from_tof': ['tof', 'incident_energy'],
+    'energy_transfer_indirect_from_tof': ['tof', 'final_energy'],
+}
+DOC_UNIT = {   # documented output unit as (multiplier, which operand's unit it follows or None)
+    'wavelength_from_tof': 1e-10, 'dspacing_from_tof': 1e-10, 'wavelength_from_energy': 1e-10, 'wavelength_from_Q': 1e-10,
+    'dspacing_from_wavelength': 1e-10, 'dspacing_from_energy': 1e-10,
+    'energy_from_tof': 1.602176634e-22, 'energy_from_wavelength': 1.602176634e-22,
+}
+
+
 def search(ctx, broken):
-    return []
+    """the property statement itself on the implementation: result dtype is float32 iff all DATA operands are
+    float32 (float64 otherwise) and the output unit is the documented one, over a sample of the grid"""
+    from fractions import Fraction
+    rng = random.Random(ctx.seed + 7)
+    groups = []
+    for kname in DATA_OPERANDS:
+        allc = list(grid(kname))
+        for ops in rng.sample(allc, min(len(allc), 120)):
+            groups.append({'id': len(groups), 'kname': kname, 'operands': ops,
+                           'expr': {'call': M + kname, 'args': {nm: '$' + nm for nm in KERNELS[kname]}}})
+    res = ctx.run_impl('kernels_impl.py', {'groups': [{k: g[k] for k in ('id', 'expr', 'operands')} for g in groups]}, timeout=3000)
+    found = []
+    for g, r in zip(groups, res['groups']):
+        if 'result' not in r:
+            continue
+        k = g['kname']
+        want = 'float32' if all(g['operands'][n]['dtype'] == 'float32' for n in DATA_OPERANDS[k]) else 'float64'
+        got = r['result']['dtype']
+        d = {'kernel': k, 'operands': {n: kcorr.describe(r['operands'][n], 0) for n in KERNELS[k]}, 'result_dtype': got,
+             'result_unit': r['result']['unit']['name']}
+        if got != want:
+            ctx.violation(f'{k}:dtype-contract', f'{k}: result dtype {got} where the documented contract gives {want}: {d}', d)
+            found.append(d)
+        if k in DOC_UNIT:
+            m = r['result']['unit']['mult']
+            mult = float(Fraction(int(m[0]), int(m[1])))
+            if abs(mult - DOC_UNIT[k]) > 1e-12 * DOC_UNIT[k]:
+                ctx.violation(f'{k}:output-unit', f'{k}: output unit {d["result_unit"]} is not the documented one: {d}', d)
+                found.append(d)
+    return found
 
 
 def replay(ctx, obj):
